@@ -54,6 +54,7 @@ LEVEL_NOTE = (
 ASSUMPTIONS = [
     "`next` in the most-derived template and `parent` in the base-most one are not defined by the statement: never generated",
     "a dynamic inherit target that evaluates to None means 'no parent' at any level (Mako's behaviour for the rendered template, test_inheritance.test_dynamic; the statement's 'base-most ancestor' is then that level); templates behind it are never reached",
+    "Template.get_def(name).render*() on a template that inherits: the def runs as called on that template (self = local = the template, parent = its inherit target, no next), the chain starting at that template; what the context holds under 'parent'/'next' is read with Context.get (documented) through the helper U",
     "family G: a relative inherit target is joined to the directory of the template that contains the tag and is not normalised (DESIGN appendix A6, TemplateLookup.adjust_uri's documented behaviour); templates are registered with put_template under exactly that uri, stale registrations of earlier chains are removed from the lookup's collection before each render; uri resolution proper (all mechanisms, missing files) belongs to C07",
     "an inherit target read from context['self'].attr.X sees the levels attached so far, so X is declared at the same or a more-derived level; X declared further toward the base is not generated",
     "an unresolvable member is an AttributeError (documented: hasattr/getattr on namespaces); the probes P/A catch exactly that",
@@ -72,6 +73,8 @@ BOUNDS = {
         "D": "L<=4, member {absent,def} x module attribute x static/dynamic inherit x chaining {none,next}",
         "E": "L=2..4, module attribute x inherit target {static, context['upN'], context['self'].attr.<layN> declared at any level 0..i} x chaining {none,next}; every level declares an attribute of its own, read through self.attr and local.attr in every body",
         "F": "L=2..3, member {absent,def,block} x inherit target {static, context['upN'], context.get('upN') absent, bound to None} at every non-last level x chaining {none,next,self}",
+        "H": "L<=4, the attribute at every level absent / string / None / 0 / '' / False / [], every body chained, read through self/local/parent/next .attr",
+        "I": "L<=3, member {absent, def, def calling parent} x attribute x chaining {none,next}; every level declares def card() (local.uri, self.uri, uri of context's parent/next, local/self/parent member, self/local attribute); whole page + get_def('card') and get_def(member) of every level by render_unicode() and render_context()",
         "G": "L=3: every level in a directory of depth 0/1/2, inherit target spelled absolutely or relatively to the tag's own template (L2.html, sub/L2.html, ../L2.html, ../../site/L2.html ..), decoy templates (where the spelling would lead from any other level) on/off, member {absent,def}, chaining {none,next}; L=4: the same with member def and next.body() everywhere",
         "errors": "11 positions: singles, ordered pairs x same/different name, block-in-block, def+block, anonymous pairs (one line / own lines); standalone, as base of a 2-chain, and as base whose leaf overrides the block",
     },
@@ -82,6 +85,8 @@ BOUNDS = {
         "D": "L<=5",
         "E": "L<=5",
         "F": "L<=4",
+        "H": "L<=5",
+        "I": "L<=4",
         "G": "L=3 and L=4, both with member {absent,def} and chaining {none,next}",
         "errors": "as quick",
     },
@@ -153,6 +158,39 @@ class Runner:
             return ("exc", "%s: %s" % (type(e).__name__, str(e)[:200]))
         finally:
             sys.setrecursionlimit(old)
+
+
+def _render_def(R, texts, main, ctx, name, via, callables):
+    """Template.get_def(name) of template `main`, rendered on its own"""
+    try:
+        for uri in R.registered - set(texts):
+            R.lookup._collection.pop(uri, None)
+        R.registered = set(texts)
+        for uri, text in texts.items():
+            R.lookup.put_template(uri, R.template(uri, text))
+        d = R.lookup.get_template(main).get_def(name)
+    except Exception as e:  # noqa
+        return ("exc", "compile %s: %s" % (type(e).__name__, str(e)[:200]))
+    old = sys.getrecursionlimit()
+    sys.setrecursionlimit(_stack_depth() + FRAMES_PER_CALLABLE * (callables + 2) + 40)
+    try:
+        if via == "render_unicode":
+            return ("out", d.render_unicode(**ctx))
+        import io
+
+        from mako.runtime import Context
+
+        buf = io.StringIO()
+        d.render_context(Context(buf, **ctx))
+        return ("out", buf.getvalue())
+    except RecursionError:
+        return ("err", "recursion")
+    except AttributeError:
+        return ("err", "missing")
+    except Exception as e:  # noqa
+        return ("exc", "%s: %s" % (type(e).__name__, str(e)[:200]))
+    finally:
+        sys.setrecursionlimit(old)
 
 
 _runner = None
@@ -253,7 +291,31 @@ def check_chain(g, chain, seed, st, R=None, twice=False):
         if obs2 != obs:
             ok = False
             st.violation("chain:second render differs", dict(case, twice=True), "rerender: a second render of the same templates differs from the first", expected=list(exp), observed=list(obs2))
+    if any(what == "card" for _v, what in probes):
+        ok = check_defs(prog, texts, ctx, chain, al, case, st, R) and ok
     return ok, texts, exp, obs
+
+
+def check_defs(prog, texts, ctx, chain, al, case, st, R):
+    """entry point Template.get_def(name): for every level j, its card() and its member def are rendered on their own,
+    by render_unicode() and by render_context(); the template is then the most-derived one of the chain j..base"""
+    ok = True
+    uris = list(prog["files"])
+    for j, spec in enumerate(chain):
+        for name in ["card"] + ([al["n1"]] if spec[0] in ("d", "dp") else []):
+            exp, ref = ir.reference_def(prog, ctx, uris[j], name)
+            st.oracles["reference_def"] += 1
+            st.transitions += ref.steps
+            for via in ("render_unicode", "render_context"):
+                obs = _render_def(R, texts, uris[j], ctx, name, via, ref.callables)
+                st.evaluations += 1
+                st.traces += 1
+                st.outcomes[("I", "get_def", len(chain) - j, exp[0] if exp[0] != "err" else "err:" + exp[1], via)] += 1
+                if exp[0] != "dontcare" and obs != exp:
+                    ok = False
+                    sig = chain_sig(exp, obs, al).replace("chain:", "get_def:", 1)
+                    st.violation(sig, dict(case, entry={"level": j, "def": name, "via": via}), "reference: a def rendered through Template.get_def() differs from the def called on its template", expected=list(exp), observed=list(obs))
+    return ok
 
 
 # --------------------------------------------------------------------------
@@ -437,7 +499,7 @@ def corpus(limit=400):
             yield {"files": ir.print_program(prog), "main": prog["main"], "ctx": dict(prog["ctx"]), "expected": exp[1] if exp[0] == "out" else None, "template_kwargs": {}}
 
     for g in ir.grids("quick"):
-        if g[1] in (2, 3) and g[0] in ("A", "C", "D", "E", "F", "G"):
+        if g[1] in (2, 3) and g[0] in ("A", "C", "D", "E", "F", "G", "H", "I"):
             n = ir.grid_size(g)
             streams.append(chain_stream(g, max(1, n // 97) | 1))  # odd stride: spread over all option positions
 
